@@ -49,6 +49,7 @@ MESSAGES = {
     "balanced": "a <b>bold</b> word", "opening": "an <info>unclosed tag", "closing": "a stray </info> tag", "crossed": "<b>crossed</info> tags",
     "escaped": "an \\<b> escaped tag", "long": "word " * 1000, "empty": "", "anyclose": "closing </> nothing", "lt": "1 < 2 and 3 > 2",
     "unknown": "<foo>unknown</foo> tag", "inline": "<fg=red>red</> text",
+    "continued": "pip install \\\n    --no-deps demo", "backslashes": "path C:\\temp\\new and \\\\server", "ends-backslash": "directory C:\\temp\\",
 }
 LINES_SINGLE = [
     "x = 1", "# a comment with <b>markup</b> in it", "s = 'text <info>x</info> y'", "t = \"</info> unbalanced close\"", "u = 'é語 ünï'",
@@ -63,6 +64,10 @@ BLOCKS_MULTI = [
     ["total = 1 + \\", "    2"],
     ["d = {", "    'k': 'v',", "}"],
     ["call = max(1,", "           2)  # trailing"],
+    ['fs = f"""Report', "for", "{x}", '"""'],
+    ["ff = '''page one\x0cpage two", "second part", "end'''"],
+    ['nel = """a\x85b', 'c"""'],
+    ["ls = \'\'\'a\u2028b", "c\'\'\'"],
 ]
 STATEMENTS = {
     "raise-value": "raise ValueError(MSG)", "raise-key": "raise KeyError(MSG)", "zero": "1/0", "assert": "assert False, MSG",
@@ -258,6 +263,17 @@ def judge_render(sh, env, exc, case, source, fail_line, path, available):
                 continue
             sh.count("renders")
             text = SGR.sub("", out)
+            if "<" not in msg:
+                # the part of the report that shows the message: everything in simple mode, the lines between the
+                # class name and the 'at <file>' line in full mode
+                part = text
+                if not simple:
+                    ls = text.split("\n")
+                    a = next((i for i, l in enumerate(ls) if l.strip() == cls), None)
+                    b = next((i for i, l in enumerate(ls) if a is not None and i > a and l.strip().startswith("at ")), len(ls))
+                    part = "\n".join(ls[a:b]) if a is not None else ""
+                if re.search(r"</?(b|error)>", part):
+                    sh.violate("markup-leak", rec, "the report shows style markup that is not part of the message %r: %r" % (msg[-30:], re.findall(r".{0,20}</?(?:b|error)>", part)[:2]))
             if normalise(msg) not in normalise(out):
                 sh.violate("message-missing", rec, "message %r not found in the %s report %r" % (normalise(msg)[:80], "simple" if simple else "full", normalise(out)[:200]))
             if simple:
@@ -346,6 +362,23 @@ def judge_ignore(sh, env, rng, case_base):
     if exc is None:
         return
     pattern = r".*[/\\]ignoredpkg[/\\].*"
+    env.ignore_round = getattr(env, "ignore_round", 0) + 1
+    other = r".*[/\\]no-such-directory[/\\].*"
+    # a matching and a non-matching pattern one after the other (order alternates): the decision about a file
+    # must follow the pattern of the trace being rendered, not an earlier render of this process
+    order = ((pattern, True), (other, False)) if env.ignore_round % 2 else ((other, False), (pattern, True))
+    for pat, hides in order:
+        rec = {"kind": "ignore-sequence", "pattern": pat, "source": mc["source"]}
+        sh.case(("ignore-seq", env.ignore_round % 2, hides, mc["shape"]), True)
+        try:
+            out = SGR.sub("", render(env, exc, 1, False, True, False, pat))
+        except Exception as e:
+            sh.violate("render-raises", rec, "render with ignore pattern raised %r" % (e,))
+            continue
+        sh.count("ignore_renders")
+        if ("ignoredpkg" in out) == hides:
+            sh.violate("ignore-filter", rec, "pattern %r: frames under ignoredpkg/ are %s at verbose verbosity (another pattern was used earlier in this process)" % (
+                pat, "listed" if hides else "missing"))
     for verbosity in (1, 2, 4):
         rec = {"kind": "ignore", "verbosity": verbosity, "source": mc["source"]}
         sh.case(("ignore", verbosity, mc["shape"]), True)
